@@ -910,7 +910,8 @@ ISINCONSISTENT = contract(
         ('consistent-iff-the-constraints-admit-the-members',
          '(hasConstraints and not noComponentType and not schema) ==> '
          '((result is False) == admitted and is_members(self.checked))'),
-        ('a-schema-object-is-not-a-value-of-a-constrained-type', '(hasConstraints and not noComponentType and schema) ==> result is True'),
+        # (an error object the callers can raise, not the bare True)
+        ('a-schema-object-is-not-a-value-of-a-constrained-type', '(hasConstraints and not noComponentType and schema) ==> isinstance(result, PyAsn1Error)'),
         ('nothing-to-check', '(not hasConstraints or noComponentType) ==> result is False'),
         ('read-only', 'schema or unchanged(self._componentValues)')],
     note='subtypeSpec.__call__ is the constraint contracts\' entry point (assumed model here: admits or raises)')
@@ -1283,7 +1284,7 @@ RECORD_ISINCONSISTENT = record_contract(
         # declared or not, the record's constraints (SIZE, WITH COMPONENTS) decide -- on its members by name; no lookup error
         ('consistent-iff-the-constraints-admit-the-members',
          '(hasConstraints and not schema) ==> ((result is False) == admitted and named_upto(self.checked, LLEN0))'),
-        ('a-schema-object-is-not-a-value-of-a-constrained-type', '(hasConstraints and schema) ==> result is True'),
+        ('a-schema-object-is-not-a-value-of-a-constrained-type', '(hasConstraints and schema) ==> isinstance(result, PyAsn1Error)'),
         ('nothing-to-check', '(not hasConstraints) ==> result is False'),
         ('read-only', 'schema or list_unchanged(self._componentValues)')],
     note='subtypeSpec.__call__ is the constraint contracts\' entry point (assumed model: admits or raises); the name lookups '
